@@ -20,7 +20,7 @@ if [ ! -d "$LAB/repo" ]; then
   git -C /repo worktree add -q --detach "$LAB/repo" HEAD || exit 2
 fi
 git -C "$LAB/repo" checkout -q --detach "$(git -C /repo rev-parse HEAD)" || exit 2
-git -C "$LAB/repo" checkout -q -- . && git -C "$LAB/repo" clean -fdq -e target
+( cd "$LAB/repo" && git diff --name-only > "$LAB/touched.txt"; git checkout -q -- .; sleep 1.1; xargs -r touch < "$LAB/touched.txt" ) && git -C "$LAB/repo" clean -fdq -e target
 # the committed state of /verif (so that edits in progress there do not leak into the trial)
 rm -rf "$LAB/snap"; mkdir -p "$LAB/snap" "$LAB/verif"
 git -C "$VER" archive HEAD | tar -x -C "$LAB/snap"
@@ -32,6 +32,9 @@ rm -rf "$LAB/snap"
 mkdir -p "$LAB/verif/work" "$LAB/verif/evidence"
 sed -i "s#\"/repo/#\"$LAB/repo/#" "$LAB/verif/engine/gtv/Cargo.toml" "$LAB/verif/engine/ctbatch/Cargo.toml"
 git -C "$LAB/repo" apply "$PATCH" || { echo "patch does not apply" >&2; exit 2; }
+# cargo decides by file times: make sure the patched files are newer than anything built before
+sleep 1.1
+( cd "$LAB/repo" && git diff --name-only | xargs -r touch )
 for id in "$@"; do
   out=$(cd "$LAB/verif" && VERIF_SEED="${VERIF_SEED:-20260925}" timeout "${MUT_TIMEOUT:-1800}" ./run.sh "$id" "${MUT_TIER:-quick}" 2>&1)
   code=$?
@@ -39,4 +42,4 @@ for id in "$@"; do
   [ "$code" = 2 ] && echo "$out" | tail -5 | cut -c1-300
   echo "$id exit=$code"
 done
-git -C "$LAB/repo" checkout -q -- .
+( cd "$LAB/repo" && git diff --name-only > "$LAB/touched.txt"; git checkout -q -- .; sleep 1.1; xargs -r touch < "$LAB/touched.txt" )
